@@ -10,7 +10,14 @@ def make_copy(name):
     d = os.path.join(SCRATCH, 'st-' + name)
     shutil.rmtree(d, ignore_errors=True)
     os.makedirs(SCRATCH, exist_ok=True)
-    subprocess.run(['rsync', '-a', '--exclude', 'target', '--exclude', '.git', '/repo/', d + '/'], check=True)
+    # /repo may be written to while it is copied (a commit, an editor): rsync then answers 23 / 24 (partial transfer); try again
+    for attempt in range(3):
+        p = subprocess.run(['rsync', '-a', '--delete', '--exclude', 'target', '--exclude', '.git', '/repo/', d + '/'])
+        if p.returncode == 0:
+            break
+        time.sleep(1)
+    else:
+        raise RuntimeError('cannot copy /repo to %s (rsync exit %d)' % (d, p.returncode))
     return d
 
 def apply(d, m):
